@@ -49,11 +49,11 @@ impl<'h> Captures<'h> {
     { unimplemented!() }
 }
 // the group-name constants, and which ghost group each names (assumed: distinct names denote distinct groups)
-//@cutall kind=const path=src/data/datetime.rs re=^CGN_(YEAR|MONTH|DAY|HOUR|MINUTE|SECOND|EPOCH)$ staticrefs=1
+//@cutall kind=const path=src/data/datetime.rs re=^CGN_(YEAR|MONTH|DAY|HOUR|MINUTE|SECOND|EPOCH|TZ)$ staticrefs=1
 #[verifier::external_body]
 proof fn axiom_gids()
     ensures gid(CGN_YEAR) == G::Year, gid(CGN_MONTH) == G::Month, gid(CGN_DAY) == G::Day, gid(CGN_HOUR) == G::Hour,
-            gid(CGN_MINUTE) == G::Minute, gid(CGN_SECOND) == G::Second, gid(CGN_EPOCH) == G::Epoch
+            gid(CGN_MINUTE) == G::Minute, gid(CGN_SECOND) == G::Second, gid(CGN_EPOCH) == G::Epoch, gid(CGN_TZ) == G::Tz
 {}
 
 pub open spec fn is_digit(b: u8) -> bool { 0x30 <= b <= 0x39 }
@@ -181,6 +181,130 @@ pub fn cap_min_sec(buffer: &mut [u8], captures: &Captures, dtfs: &DTFSSet, at0: 
 //@end
 //@cut slice path=src/data/datetime.rs fn=captures_to_buffer_bytes anchor="match dtfs.second {" take=block label=CAP-SECOND reborrow=buffer
 //@bytelits
+//@end
+    at
+}
+
+
+// ---- epoch, year, zone (C04: "... every numeric UTC offset and every unambiguous zone abbreviation ...  A timestamp without zone
+// information is read in the --tz-offset zone, as are ambiguous zone abbreviations")
+/// the bytes of a str (vstd: str::as_bytes gives the UTF-8 encoding of the view)
+pub open spec fn sb(s: &str) -> Seq<u8> { vstd::utf8::encode_utf8(s@) }
+pub assume_specification[String::as_bytes](s: &String) -> (r: &[u8]) ensures r@ == vstd::utf8::encode_utf8(s@);
+pub assume_specification[String::len](s: &String) -> (r: usize) ensures r == vstd::utf8::encode_utf8(s@).len();
+/// stand-in (R9) for `year.to_string()`: assumed four digits for the years handed in (the code's own debug assertion)
+pub uninterp spec fn year_text(y: Year) -> Seq<u8>;
+#[verifier::external_body]
+pub fn verif_year_to_string(y: &Year) -> (r: String) ensures vstd::utf8::encode_utf8(r@) == year_text(*y), year_text(*y).len() == 4 { unimplemented!() }
+#[verifier::external_body]
+pub fn verif_year_fallback() -> (r: &'static [u8]) ensures r@.len() == 4 { unimplemented!() }
+
+/// the epoch field: the captured digits verbatim
+pub fn cap_epoch(buffer: &mut [u8], captures: &Captures, dtfs: &DTFSSet, at0: usize) -> (r: usize)
+    requires
+        old(buffer)@.len() <= usize::MAX,
+        dtfs.epoch is s ==> captures.cap(G::Epoch) is Some && at0 + captures.cap(G::Epoch).unwrap().len() <= old(buffer)@.len(),
+    ensures
+        dtfs.epoch is s ==> r == at0 + captures.cap(G::Epoch).unwrap().len() && final(buffer)@ =~= spliced(old(buffer)@, at0 as int, captures.cap(G::Epoch).unwrap()),
+        dtfs.epoch is _none ==> r == at0 && final(buffer)@ == old(buffer)@,
+{
+    proof { axiom_gids(); }
+    let mut at: usize = at0;
+//@cut slice path=src/data/datetime.rs fn=captures_to_buffer_bytes anchor="match dtfs.epoch {" take=block label=CAP-EPOCH reborrow=buffer
+//@end
+    at
+}
+
+/// the year field: the captured year verbatim; for a notation without year, the captured year if the line has one, else the year
+/// handed in (the file's year, four digits), else the fallback dummy year
+pub fn cap_year(buffer: &mut [u8], captures: &Captures, year_opt: &Option<Year>, dtfs: &DTFSSet, at0: usize) -> (r: usize)
+    requires
+        old(buffer)@.len() <= usize::MAX, at0 + 4 <= old(buffer)@.len(),
+        (dtfs.year is Y || dtfs.year is y) ==> captures.cap(G::Year) is Some,
+        captures.cap(G::Year) is Some ==> at0 + captures.cap(G::Year).unwrap().len() <= old(buffer)@.len(),
+    ensures
+        (dtfs.year is Y || dtfs.year is y) ==> r == at0 + captures.cap(G::Year).unwrap().len() && final(buffer)@ =~= spliced(old(buffer)@, at0 as int, captures.cap(G::Year).unwrap()),
+        dtfs.year is _fill && captures.cap(G::Year) is Some ==> final(buffer)@ =~= spliced(old(buffer)@, at0 as int, captures.cap(G::Year).unwrap()),
+        dtfs.year is _fill && captures.cap(G::Year) is None && year_opt is Some ==> r == at0 + 4 && final(buffer)@ =~= spliced(old(buffer)@, at0 as int, year_text(year_opt.unwrap())),
+        dtfs.year is _fill && captures.cap(G::Year) is None && year_opt is None ==> r == at0 + 4,
+        dtfs.year is _none ==> r == at0 && final(buffer)@ == old(buffer)@,
+{
+    proof { axiom_gids(); }
+    let mut at: usize = at0;
+//@cut slice path=src/data/datetime.rs fn=captures_to_buffer_bytes anchor="match dtfs.year {" take=block label=CAP-YEAR reborrow=buffer
+//@replace "year.to_string()" "verif_year_to_string(year)"
+//@replace "YEAR_FALLBACKDUMMY.as_bytes()" "verif_year_fallback()"
+//@end
+    at
+}
+
+/// the zone abbreviation table, by what it maps an abbreviation to (its 200-odd VALUES are outside any contract): None = not in
+/// the table, Some(empty) = ambiguous abbreviation, Some(offset text) otherwise
+pub uninterp spec fn tz_table(abbr: Seq<u8>) -> Option<Seq<u8>>;
+pub struct TzMapStub;
+impl TzMapStub {
+    #[verifier::external_body]
+    pub fn get_entry(&self, k: &str) -> (r: Option<(&'static &'static str, &'static &'static str)>)
+        ensures r is Some <==> tz_table(sb(k)) is Some, r is Some ==> sb(*r.unwrap().1) == tz_table(sb(k)).unwrap()
+    { unimplemented!() }
+}
+pub const MAP_TZZ_TO_TZz: TzMapStub = TzMapStub;
+#[verifier::external_body]
+pub uninterp spec fn is_utf8(b: Seq<u8>) -> bool;
+#[verifier::external_body]
+pub fn u8_to_str(data: &[u8]) -> (r: Option<&str>) ensures r is Some <==> is_utf8(data@), r is Some ==> sb(r.unwrap()) == data@ { unimplemented!() }
+/// U+2212 MINUS SIGN in UTF-8, and the ASCII hyphen-minus (stand-ins (R9) for the two constants, by value)
+pub open spec fn minus_sign() -> Seq<u8> { seq![0xE2u8, 0x88u8, 0x92u8] }
+#[verifier::external_body]
+pub fn verif_minus_sign() -> (r: &'static [u8]) ensures r@ == minus_sign() { unimplemented!() }
+#[verifier::external_body]
+pub fn verif_hyphen_minus() -> (r: &'static [u8]) ensures r@ == seq![0x2Du8] { unimplemented!() }
+/// stand-in (R9) for `slice.starts_with(prefix)`
+#[verifier::external_body]
+pub fn verif_starts_with(s: &[u8], p: &[u8]) -> (r: bool) ensures r == (s@.len() >= p@.len() && s@.subrange(0, p@.len() as int) == p@) { unimplemented!() }
+/// stand-ins (R9) for `std::str::from_utf8`, `val.char_indices().nth(1)` (the byte index of the second character) and `val[i..].as_bytes()`
+#[verifier::external_body]
+pub fn verif_from_utf8(b: &[u8]) -> (r: core::result::Result<&str, ()>) ensures r is Ok ==> sb(r.unwrap()) == b@ { unimplemented!() }
+#[verifier::external_body]
+pub fn verif_second_char_index(s: &str) -> (r: Option<(usize, char)>)
+    // assumed (UTF-8): a string that starts with E2 88 92 has its second character at byte 3
+    ensures r is Some ==> r.unwrap().0 <= sb(s).len(), (r is Some && sb(s).len() >= 3 && sb(s).subrange(0, 3) == minus_sign()) ==> r.unwrap().0 == 3
+{ unimplemented!() }
+#[verifier::external_body]
+pub fn verif_str_tail_bytes(s: &str, i: usize) -> (r: &[u8]) requires i <= sb(s).len() ensures r@ == sb(s).subrange(i as int, sb(s).len() as int) { unimplemented!() }
+
+/// the zone field handed to chrono
+pub fn cap_tz(buffer: &mut [u8], captures: &Captures, tz_offset_string: &String, dtfs: &DTFSSet, at0: usize) -> (r: usize)
+    requires
+        old(buffer)@.len() <= usize::MAX,
+        at0 + vstd::utf8::encode_utf8(tz_offset_string@).len() <= old(buffer)@.len(),
+        (dtfs.tz is z || dtfs.tz is zc || dtfs.tz is zp || dtfs.tz is Z) ==> captures.cap(G::Tz) is Some && at0 + captures.cap(G::Tz).unwrap().len() <= old(buffer)@.len(),
+        dtfs.tz is Z ==> forall|k: Seq<u8>| tz_table(k) is Some ==> at0 + #[trigger] tz_table(k).unwrap().len() <= old(buffer)@.len(),
+        // the zone-abbreviation group matches ASCII letters
+        dtfs.tz is Z ==> is_utf8(captures.cap(G::Tz).unwrap()),
+    ensures
+        // no zone in the notation: the --tz-offset zone
+        dtfs.tz is _fill ==> final(buffer)@ =~= spliced(old(buffer)@, at0 as int, vstd::utf8::encode_utf8(tz_offset_string@)),
+        // a numeric offset: verbatim, except that a leading U+2212 MINUS SIGN becomes an ASCII '-'
+        (dtfs.tz is z || dtfs.tz is zc || dtfs.tz is zp) && !(captures.cap(G::Tz).unwrap().len() >= 3 && captures.cap(G::Tz).unwrap().subrange(0, 3) == minus_sign())
+            ==> final(buffer)@ =~= spliced(old(buffer)@, at0 as int, captures.cap(G::Tz).unwrap()),
+        // a zone abbreviation: the table's offset for it; the --tz-offset zone when the abbreviation is ambiguous (empty entry)
+        dtfs.tz is Z && captures.cap(G::Tz).unwrap().len() > 0 && tz_table(captures.cap(G::Tz).unwrap()) is Some && tz_table(captures.cap(G::Tz).unwrap()).unwrap().len() > 0
+            ==> final(buffer)@ =~= spliced(old(buffer)@, at0 as int, tz_table(captures.cap(G::Tz).unwrap()).unwrap()),
+        dtfs.tz is Z && captures.cap(G::Tz).unwrap().len() > 0 && tz_table(captures.cap(G::Tz).unwrap()) is Some && tz_table(captures.cap(G::Tz).unwrap()).unwrap().len() == 0
+            ==> final(buffer)@ =~= spliced(old(buffer)@, at0 as int, vstd::utf8::encode_utf8(tz_offset_string@)),
+        dtfs.tz is _none ==> r == at0 && final(buffer)@ == old(buffer)@,
+{
+    proof { axiom_gids(); }
+    let mut at: usize = at0;
+//@cut slice path=src/data/datetime.rs fn=captures_to_buffer_bytes anchor="match dtfs.tz {" take=block label=CAP-TZ reborrow=buffer
+//@replace "captureb.starts_with(MINUS_SIGN)" "verif_starts_with(captureb, verif_minus_sign())"
+//@replace "HYPHEN_MINUS" "verif_hyphen_minus()"
+//@replace "std::str::from_utf8(&captureb)" "verif_from_utf8(captureb)"
+//@replace "val.char_indices().nth(1)" "verif_second_char_index(val)"
+//@replace "val[offset..].as_bytes()" "verif_str_tail_bytes(val, offset)"
+//@before "if tzZ.is_empty() {"
+            proof { assert(vstd::utf8::encode_utf8(Seq::<char>::empty()) =~= Seq::<u8>::empty()); if tzZ@.len() == 0 { assert(tzZ@ =~= Seq::<char>::empty()); } }
 //@end
     at
 }
